@@ -333,19 +333,23 @@ SRC_DET = {
     'd/src/lib.rs': '#[typeshare]\npub struct Shared { pub d: u32 }\n',
     'b/src/s1.rs': 'use c::Shared;\n#[typeshare]\npub struct ViaC { pub s: Shared, #[typeshare(typescript(type = "Date"))] pub at: String }\n',
     'b/src/s2.rs': 'use d::Shared;\n#[typeshare]\npub struct ViaD { pub s: Shared, #[typeshare(typescript(type = "Date"))] pub at: String }\n',
+    # ONE file that names the same type under two crates (a `use` and a path in code that is not typeshared), and a name reached through a
+    # facade crate that two other crates define: which crate the import comes from must not depend on hash order
+    'e/src/lib.rs': 'use c::Shared;\npub fn not_shared(x: d::Shared) {}\n#[typeshare]\npub struct App { pub s: Shared }\n',
+    'f/src/lib.rs': 'use facade::Shared;\n#[typeshare]\npub struct ViaFacade { pub s: Shared }\n',
 }
 SRC_DET_CONSTS = {'a/src/k1.rs': '#[typeshare]\npub const ALPHA: u32 = 1;\n', 'a/src/k2.rs': '#[typeshare]\npub const BETA: u32 = 2;\n'}
 DET_LANGS = [('typescript', 'ts'), ('kotlin', 'kt'), ('swift', 'swift'), ('python', 'py'), ('go', 'go')]
 
 
 def scenario_determinism(exe, mode_arg, payload):
-    """C06 bound: 8 fresh processes (fresh hash seeds, default walker threads) per (language, output mode) over a 9-file, 4-crate tree with
-    generics, consts, an algebraic enum, a wildcard import and same-named imports from two crates; all runs of one configuration must produce byte-identical files."""
+    """C06 bound: 8 fresh processes (fresh hash seeds, default walker threads) per (language, output mode) over an 11-file, 6-crate tree with
+    generics, consts, an algebraic enum, a wildcard import, same-named imports from two crates (in two files, in one file, through a facade crate); all runs of one configuration must produce byte-identical files."""
     top = tempfile.mkdtemp(prefix='clirun-', dir=WORK)
     try:
         # single-file mode merges every crate into one output: two types named `Shared` there are the recorded finding
         # kf-duplicate-names (arrival order), so the same-named pair is only part of the one-module-per-crate runs
-        single = {k: v for k, v in SRC_DET.items() if k.split('/')[0] not in ('c', 'd') and k not in ('b/src/s1.rs', 'b/src/s2.rs')}
+        single = {k: v for k, v in SRC_DET.items() if k.split('/')[0] not in ('c', 'd', 'e', 'f') and k not in ('b/src/s1.rs', 'b/src/s2.rs')}
         src = {'folder': os.path.join(top, 'src'), 'file': os.path.join(top, 'src1')}
         srck = {'folder': os.path.join(top, 'srck'), 'file': os.path.join(top, 'srck1')}
         tree(src['folder'], SRC_DET); tree(src['file'], single)
@@ -423,6 +427,11 @@ def robust_case(exe, name, lang):
         if name == 'many_files':
             # more per-file results than the collector channel holds (100): the walk must still terminate
             tree(src, {'c/src/m%03d.rs' % i: '#[typeshare]\npub struct S%03d { pub a: u32 }\n' % i for i in range(150)})
+        elif name == 'broken_among_many':
+            # one unparsable file among many: the collector stops at the first error while other walker threads still deliver results
+            files = {'k%d/src/m%02d.rs' % (i % 8, i): '#[typeshare]\npub struct T%03d { pub a: u32, pub b: Vec<String> }\n' % i for i in range(120)}
+            files['k3/src/broken.rs'] = '#[typeshare]\npub struct Half { pub a: u32 }\npub fn oops( {\n'
+            tree(src, files)
         else:
             tree(src, {'c/src/lib.rs': ROBUST[name]})
         base = lang.split('-')[0]
@@ -456,7 +465,7 @@ def scenario_robust(exe, mode_arg, payload):
     """C07 bound: 29 edge inputs (malformed nested typeshare lists, non-ASCII and underscore-only identifiers under rename_all, unparsable
     text, unsupported types, deep cfg nesting, self / mutual references, empty tuple structs / variants, containers without arguments,
     unknown nested typeshare(...) lists, a bare `use krate;` / `use *;`, a const, non-ASCII type names, every container shape as variant payload / field / alias target) x 9 language / output-mode configurations (incl. Scala with and
-    without a package) + a tree of 150 annotated files, each run with a 15 s time limit: the tool must exit 0, or non-zero with a
+    without a package) + a tree of 150 annotated files + (8 times) a tree of 120 files in 8 crates with one unparsable file among them, each run with a 15 s time limit: the tool must exit 0, or non-zero with a
     diagnostic; it must never panic, abort or hang."""
     if mode_arg == 'check':
         m = robust_case(exe, payload['input_name'], payload['lang'])
@@ -464,9 +473,9 @@ def scenario_robust(exe, mode_arg, payload):
             witness(payload, m)
         print('input passes'); return
     n = 0
-    for name in sorted(ROBUST) + ['many_files']:
+    for name in sorted(ROBUST) + ['many_files'] + ['broken_among_many'] * 4:
         for lang in ROBUST_LANGS:
-            if name == 'many_files' and lang not in ('typescript', 'kotlin-folder'):
+            if name in ('many_files', 'broken_among_many') and lang not in ('typescript', 'kotlin-folder'):
                 continue
             n += 1
             m = robust_case(exe, name, lang)
@@ -1178,6 +1187,8 @@ EXTRA_SRC = ('#[typeshare]\npub struct Ev { pub at: NaiveDateTime, pub seen: Opt
              '#[typeshare]\npub struct UserId { pub v: u32, pub home_url: String }\n#[typeshare]\npub type Owner = UserId;\n#[typeshare]\npub type Members = Vec<UserId>;\n'
              '#[typeshare]\npub type ByUrl = HashMap<String, Option<UserId>>;\n'
              '#[typeshare]\n#[serde(tag = "t", content = "c")]\npub enum Pay { Name(Option<String>), Nick(Option<Option<String>>), Plain(String), Who(UserId), S { a: Option<u32>, b: Option<Option<u32>>, c: u32 } }\n'
+             '/// Absolute path, e.g. C:\\Users\\alice\\profile.json or \\\\server\\share; tabs are \\t, a trailing one: \\\\\n#[typeshare]\n#[serde(tag = "type", content = "content", rename_all = "camelCase", rename_all_fields = "camelCase")]\n'
+             'pub enum Event {\n    /// docs with a backslash \\N{DASH} and \\x41\n    UserCreated { user_id: String, display_name: String },\n    #[serde(rename_all = "SCREAMING_SNAKE_CASE")]\n    Loud { inner_field: u32 },\n    Ping,\n}\n'
              '#[typeshare]\npub struct Ovr {\n'
              '    #[typeshare(typescript(type = "Date"), kotlin(type = "Instant"), swift(type = "Date"), scala(type = "Instant"), go(type = "time.Time"), python(type = "datetime"))]\n    pub expires_at: Option<String>,\n'
              '    #[typeshare(typescript(type = "Date"), kotlin(type = "Instant"), swift(type = "Date"), scala(type = "Instant"), go(type = "time.Time"), python(type = "datetime"))]\n    pub created_at: String,\n'
@@ -1220,7 +1231,7 @@ def extras_case(exe, lang, ext, largs):
             try:
                 missing = py_helper_names(text)
             except SyntaxError as ex:
-                return 'CPython does not parse the generated module: %s' % ex.msg
+                return '(C15) CPython does not parse the generated module (doc text with backslashes in a docstring?): %s' % ex.msg
             if missing:
                 return '(C12) the generated Python module uses %s without importing or defining it' % ', '.join('`%s`' % m for m in missing)
         if lang == 'go':
@@ -1230,6 +1241,10 @@ def extras_case(exe, lang, ext, largs):
         if lang == 'typescript':
             if not re.search(r't: "Nick", c\?: string \| null', text) or re.search(r't: "Name", c\?: string \| null', text):
                 return '(C04) the payloads Option<String> and Option<Option<String>> of two newtype variants are not kept apart: %s' % ' '.join(re.findall(r'\{ t: "N\w+", [^}]*\}', text))
+        # C01: serde's enum-level rename_all_fields is the default for the fields of struct variants, a variant's own rename_all wins
+        for key in ('userId', 'displayName', 'INNER_FIELD'):
+            if key not in text:
+                return '(C01) the wire name `%s` of a struct-variant field (rename_all_fields on the enum / rename_all on the variant) is not carried by the generated %s code' % (key, lang)
         # C04 with a per-language type override: optional exactly for Option<T> / serde(default), whatever the override says
         want = {'expires_at': True, 'created_at': False, 'touched_at': True}
         for field, opt in want.items():
@@ -1260,7 +1275,34 @@ KF_SRC = {
 }
 
 
+KF_SRC.update({
+    # kf-c01-rename-list-form: serde(rename(serialize = .., deserialize = ..)) / rename_all(serialize = ..) are not read
+    'rename_list_form': ('#[typeshare]\npub struct P { #[serde(rename(serialize = "pageCount", deserialize = "pageCount"))] pub page_count: u32 }\n', 'typescript', 'ts', [], r'\bpage_count\b',
+                         'serde binds `pageCount` (list form of rename, both directions agree), the generated code binds `page_count`'),
+    # kf-c01-key-not-an-identifier: an explicit binding is written only for keys containing `-`
+    'key_not_identifier': ('#[typeshare]\npub struct K { #[serde(rename = "24h_volume")] pub v: u32, #[serde(rename = "price.usd")] pub p: u32 }\n', 'typescript', 'ts', [], r'(?m)^\s*(24h_volume|price\.usd)\??:',
+                           'the keys `24h_volume` / `price.usd` are written as bare property names (no quoted property): the declaration is not valid and the key is bound nowhere'),
+    # kf-c02-python-types-member-name: the members of the <Enum>Types class are named after the wire name
+    'py_types_member': ('#[typeshare]\n#[serde(tag = "t", content = "c")]\npub enum E { #[serde(rename = "user.joined")] Joined(u32), Ping }\n', 'python', 'py', [], r'USER\.JOINED\s*=',
+                        'the member of ETypes for the variant renamed `user.joined` is written `USER.JOINED = ..`: the class cannot be created, no variant has a case'),
+})
+
+
+def stdout_pipe_case(exe):
+    """kf-c07-output-to-a-pipe: --output-file /dev/stdout with stdout a pipe never terminates (check_write_file reads the output path first)"""
+    top = tempfile.mkdtemp(prefix='clirun-', dir=WORK)
+    try:
+        src = os.path.join(top, 'src')
+        tree(src, {'c/src/lib.rs': '#[typeshare]\npub struct S { pub a: u32 }\n'})
+        rc, out = run(exe, ['--lang', 'typescript', '--output-file', '/dev/stdout', src], cwd=src, timeout=6)
+        return 'with --output-file /dev/stdout and stdout a pipe the tool does not terminate (it reads the pipe it is about to write)' if rc == 'timeout' else None
+    finally:
+        shutil.rmtree(top, ignore_errors=True)
+
+
 def kf_case(exe, kind):
+    if kind == 'stdout_pipe':
+        return stdout_pipe_case(exe)
     srcx, lang, ext, largs, pat, msg = KF_SRC[kind]
     top = tempfile.mkdtemp(prefix='clirun-', dir=WORK)
     try:
@@ -1270,7 +1312,7 @@ def kf_case(exe, kind):
         rc, out = run(exe, ['--lang', lang] + largs + ['--output-file', outp, src], cwd=src, timeout=20)
         if rc != 0 or not os.path.exists(outp):
             return None
-        return msg if re.search(pat, strip_noncode(lang, open(outp).read())) else None
+        return msg if re.search(pat, open(outp).read() if kind in ('key_not_identifier', 'py_types_member') else strip_noncode(lang, open(outp).read())) else None
     finally:
         shutil.rmtree(top, ignore_errors=True)
 
@@ -1295,10 +1337,11 @@ def scenario_extras(exe, mode_arg, payload):
     name (typing / pydantic / enum / datetime / json) that it neither imports nor defines. C20: with uppercase_acronyms = ["ID", "URL"] no Go identifier
     keeps `Id` / `Url` (definitions, fields, alias targets, map values). C04: TypeScript keeps the payloads Option<T> and Option<Option<T>> of newtype
     variants apart; in every language a field with a per-language type override is marked optional exactly when it is Option<T> or has serde(default).
-    C03: a #[typeshare] associated const inside an impl block is generated or reported, not silently left out."""
+    C03: a #[typeshare] associated const inside an impl block is generated or reported, not silently left out. C01: the fields of struct variants
+    follow rename_all_fields of the enum resp. rename_all of the variant. C15: doc text with backslashes leaves the Python module parsable."""
     pid = os.environ.get('VERIF_PID')
     def mine(m):
-        return m is None or pid is None or pid not in ('C03', 'C04', 'C12', 'C20') or ('(%s)' % pid) in m or not re.match(r'\(C\d\d\)', m)
+        return m is None or pid is None or pid not in ('C01', 'C03', 'C04', 'C12', 'C15', 'C20') or ('(%s)' % pid) in m or not re.match(r'\(C\d\d\)', m)
     if mode_arg == 'check':
         if payload.get('kf'):
             m = kf_case(exe, payload['kf'])
